@@ -1,13 +1,29 @@
-# Property-breaking edits used by run.py. Each edit is (file, exact old text, new text);
-# the old text must occur exactly once in the file.
+# Property-breaking edits used by run.py. Each edit is (file, exact old text, new text[, nth]);
+# without nth the old text must occur exactly once in the file, with nth the nth (0-based)
+# occurrence is replaced.
 MUTANTS = [
-    dict(name='c01-rank128-popcount-low32', props=['C01'],
-         desc='Rank128 subtracts only the low 56 bits popcount of the current word on the right half',
+    # ---- C01
+    dict(name='c01-rank128-popcount-low56', props=['C01'],
+         desc='Rank128 subtracts only the popcount of the low 56 bits of the current word on the right half',
          edits=[('bitmap/rank.go', 'cnt1 := int32(bits.OnesCount64(w))', 'cnt1 := int32(bits.OnesCount64(w << 8 >> 8))')]),
-    dict(name='c01-rank64-mask-table', props=['C01'],
-         desc='Mask[63] is built one bit short',
-         edits=[('bitmap/mask.go', 'Mask[i] = (1 << uint(i)) - 1\n', 'Mask[i] = (1 << uint(i)) - 1\n\t\tif i == 63 {\n\t\t\tMask[i] >>= 1\n\t\t}\n')]),
     dict(name='c01-indexrank128-drop-last', props=['C01'],
-         desc='IndexRank128 omits the extra last entry for even word counts >= 4',
+         desc='IndexRank128 omits the extra last entry for even word counts >= 6',
          edits=[('bitmap/rank.go', 'if len(words)&1 == 0 {', 'if len(words)&1 == 0 && len(words) < 6 {')]),
+    # ---- C02 (survivors of the pinned suite named in the property text)
+    dict(name='c02-select32-shift15', props=['C02'],
+         desc='Select32 halving search shifts by 15 instead of 16',
+         edits=[('bitmap/select.go', 'ww >>= 16', 'ww >>= 15', 0)]),
+    dict(name='c02-select32r64-shift15', props=['C02'],
+         desc='Select32R64 halving search shifts by 15 instead of 16',
+         edits=[('bitmap/select.go', 'ww >>= 16', 'ww >>= 15', 1)]),
+    dict(name='c02-select32-next1-minus', props=['C02'],
+         desc='Select32 next-1 word scan computes wordI<<6 - tz',
+         edits=[('bitmap/select.go', 'return a, wordI<<6 + int32(bits.TrailingZeros64(w))\n\t\t}\n\t}\n\treturn a, l << 6\n}\n\n// IndexSelect32R64',
+                 'return a, wordI<<6 - int32(bits.TrailingZeros64(w))\n\t\t}\n\t}\n\treturn a, l << 6\n}\n\n// IndexSelect32R64')]),
+    dict(name='c02-select32r64-last-one', props=['C02'],
+         desc='Select32R64 returns 64*len-1 as the successor of the last 1-bit (tail never executed by the suite)',
+         edits=[('bitmap/select.go', '\treturn a, l << 6\n}\n\n// indexSelectU64', '\treturn a, l<<6 - 1\n}\n\n// indexSelectU64')]),
+    dict(name='c02-equiv-or-xor', props=['C02'], expect='silent',
+         desc='EQUIVALENT edit: | -> ^ when joining the byte value with an in-byte rank < 8 (must stay silent)',
+         edits=[('bitmap/select.go', 'select8Lookup[(ww&0xff)<<3|uint64(findIth)]', 'select8Lookup[(ww&0xff)<<3^uint64(findIth)]', 0)]),
 ]
